@@ -149,6 +149,9 @@ struct LcSim : Harness {
     if (!strcmp(name, "ext")) return (void *) ext_c;
     if (!strcmp(name, "extn")) return (void *) extn_c;
     if (!strcmp(name, "extm")) return (void *) extm_c;
+    if (!strcmp(name, "memset")) return (void *) memset;
+    if (!strcmp(name, "memcpy")) return (void *) memcpy;
+    if (!strcmp(name, "memmove")) return (void *) memmove;
     auto it = s->resolver_k.find(name); if (it == s->resolver_k.end()) return nullptr;
     if (it->second < 0) {  // the resolver itself creates and loads a module that defines the name, and answers with the function's address
       size_t mi = (size_t) (-it->second - 1); if (mi >= s->mods.size()) return nullptr;
@@ -345,7 +348,7 @@ struct LcSim : Harness {
         phase("c2mir_compile", "module " + std::to_string(mi));
         int ok = c2mir_compile(ctx, &opts, c_getc, &cs, "sim.c", nullptr); fclose(msg);
         if (!ok) { out.fail("harness_c_emitter", "c2mir_compile", "c2mir rejected the generated C for module " + std::to_string(mi)); return; }
-        mods[mi].via = "c2m"; C->count("module_via_c2mir"); if (prog_json->at("mods")[mi].geti("cmacros")) C->count("c2mir_with_macros_and_conditionals");
+        mods[mi].via = "c2m"; C->count("module_via_c2mir"); if (prog_json->at("mods")[mi].geti("cmacros")) C->count("c2mir_with_macros_and_conditionals"); if (prog_json->at("mods")[mi].geti("cdecls")) C->count("c2mir_with_declaration_traffic");
       } else {
         if (uses(prog_json->at("mods")[mi], "lt") || uses(prog_json->at("mods")[mi], "ld")) return;
         { bool gv = false; for (auto &f : prog_json->at("mods")[mi].at("funcs").a) if (f.geti("gv")) gv = true; if (gv) return; }  // nor functions with hard-register global variables (reader fails: outside the claimed properties)  // binary MIR cannot carry lref items (known limitation outside the claimed properties)
@@ -418,7 +421,7 @@ struct LcSim : Harness {
   void do_link(const Json &op, Outcome &out) {
     int iface = (int) (op.size() > 1 ? op[1].num() : 1) % 5; bool use_resolver = op.size() > 2 && op[2].num() != 0;
     if ((iface >= 2) && !gen_on) { phase("MIR_gen_init"); MIR_gen_init(ctx); gen_on = true; MIR_gen_set_optimize_level(ctx, (unsigned) opt_level); }
-    if (!ext_loaded && !use_resolver && mode != "C13") { MIR_load_external(ctx, "ext", (void *) ext_c); MIR_load_external(ctx, "extn", (void *) extn_c); MIR_load_external(ctx, "extm", (void *) extm_c); ext_loaded = true; }
+    if (!ext_loaded && !use_resolver && mode != "C13") { MIR_load_external(ctx, "ext", (void *) ext_c); MIR_load_external(ctx, "extn", (void *) extn_c); MIR_load_external(ctx, "extm", (void *) extm_c); MIR_load_external(ctx, "memset", (void *) memset); MIR_load_external(ctx, "memcpy", (void *) memcpy); MIR_load_external(ctx, "memmove", (void *) memmove); ext_loaded = true; }
     // model: bind every import of every pending module
     expect_error = -1; std::vector<std::pair<int, std::string>> newly; std::vector<int> sim_loaded; bool dontcare = false;
     for (size_t pi = 0; pi < pending.size() && expect_error < 0; pi++) { int mi = pending[pi]; for (auto &n : imports_of((size_t) mi)) {
@@ -686,7 +689,7 @@ struct LcSim : Harness {
     if (big) { go.sw = true; go.sw_weight = 30; go.recursion = false; }
     go.blocked = r.coin();
     prog::Generator g(r, go); Json prog = g.program(); prog::protect_fuel(prog);
-    for (auto &mo : prog["mods"].a) { mo.set("fwd_first", (int) r.coin()); mo.set("rev", (int) r.coin()); mo.set("cmacros", (int) r.coin()); }
+    for (auto &mo : prog["mods"].a) { mo.set("fwd_first", (int) r.coin()); mo.set("rev", (int) r.coin()); mo.set("cmacros", (int) r.coin()); mo.set("cdecls", (int) r.coin()); }
     Json ops = Json::array(); size_t nm = prog.at("mods").size();
     auto push = [&](std::initializer_list<Json> l) { Json o = Json::array(); for (auto &x : l) o.push(x); ops.push(o); };
     std::vector<std::string> names; for (auto &mo : prog.at("mods").a) for (auto &f : mo.at("funcs").a) names.push_back(f.gets("name"));
@@ -716,8 +719,8 @@ struct LcSim : Harness {
         push({"load", (long long) mi}); remaining.erase(mi);
       }
       if (r.chance(1, 3)) push({"opt", (int) r.below(4)});
-      int iface = noexec ? 0 : m == "C16" ? (int) r.range(1, 3) : m == "C03" ? (int) r.range(1, 4) : (int) r.range(1, 3);
-      if (family == 1 && iface != 0) iface = 1; else if (family == 2 && iface == 1) iface = (int) r.range(2, m == "C03" ? 4 : 3);
+      int iface = noexec ? 0 : m == "C16" ? (int) r.range(1, 3) : (int) r.range(1, 4);  // C16 states whole-function generation only
+      if (family == 1 && iface != 0) iface = 1; else if (family == 2 && iface == 1) iface = (int) r.range(2, m == "C16" ? 3 : 4);
       if (iface == 4) {  // the lazy basic-block generator consumes the MIR of the functions it enters: no later step may inline them
         bool needed_later = false; for (auto x : remaining) for (auto d : deps[x]) if (step.count(d)) needed_later = true;
         if (needed_later) iface = 3;
